@@ -422,6 +422,30 @@ theorem w2_unguardVal {Q : PUnit → PUnit → VmState → VmState → Prop} (v 
   | int _ => exact h.k_guard hx
   | real _ => exact h.k_guard hx
 
+theorem w2_guardRows {Q : PUnit → PUnit → VmState → VmState → Prop} (es : List (Val × Val))
+    (h : Agree c K s t) (hv : ∀ e ∈ es, VK K e.1 ∧ VK K e.2)
+    (hq : Agree c K { s with guards := rowGuards es ++ s.guards } { t with guards := rowGuards es ++ s.guards } →
+      Q ⟨⟩ ⟨⟩ { s with guards := rowGuards es ++ s.guards } { t with guards := rowGuards es ++ s.guards }) :
+    W2 c (guardRows es) (guardRows es) Q s t := by
+  have e2 : (guardRows es).go t = (.ok ⟨⟩, { t with guards := rowGuards es ++ s.guards }) := by
+    rw [go_guardRows, h.guards]
+  refine w2_of_go (go_guardRows es s) e2 (hq (h.guards_change _ (fun x hx => ?_)))
+  rcases List.mem_append.mp hx with hx | hx
+  · obtain ⟨e, he, h1 | h1⟩ := mem_rowGuards hx
+    · exact (hv e he).1 _ h1
+    · exact (hv e he).2 _ h1
+  · exact h.k_guard hx
+
+theorem w2_unguardRows {Q : PUnit → PUnit → VmState → VmState → Prop} (es : List (Val × Val))
+    (h : Agree c K s t)
+    (hq : Agree c K { s with guards := unrow es s.guards } { t with guards := unrow es s.guards } →
+      Q ⟨⟩ ⟨⟩ { s with guards := unrow es s.guards } { t with guards := unrow es s.guards }) :
+    W2 c (unguardRows es) (unguardRows es) Q s t := by
+  have e2 : (unguardRows es).go t = (.ok ⟨⟩, { t with guards := unrow es s.guards }) := by
+    rw [go_unguardRows, h.guards]
+  exact w2_of_go (go_unguardRows es s) e2
+    (hq (h.guards_change _ (fun x hx => h.k_guard (mem_of_mem_unrow es hx))))
+
 /-- `getTable` on a `K`-value: the same table (its entries are `K`-values) or the same error -/
 theorem w2_getTable {Q : (Nat × Nat × List (Val × Val)) → (Nat × Nat × List (Val × Val)) →
       VmState → VmState → Prop} (v : Val) (h : Agree c K s t) (hv : VK K v)
